@@ -8,11 +8,25 @@ import (
 // (no 00 00 0x with x <= 3) and does not end in 00.
 func NALBody(r *fw.Rand, b []byte) {
 	r.Fill(b)
+	// favour the bytes start-code scanners care about, without ever forming 00 00 0x (x <= 3): single zeros followed
+	// by 01/02/03 (e.g. "40 00 01") are perfectly legal NAL content
 	for i := range b {
-		if i > 0 && b[i-1] == 0 && b[i] < 4 {
+		switch r.Intn(24) {
+		case 0:
+			b[i] = 0
+		case 1:
+			b[i] = 1
+		case 2:
+			b[i] = byte(r.Pick(2, 3))
+		}
+	}
+	for i := range b {
+		if i >= 2 && b[i-2] == 0 && b[i-1] == 0 && b[i] < 4 {
 			b[i] = 0x40 | b[i]
 		}
 	}
+	// the byte before the body (NAL header) is never 00 for H264; for H265 the second header byte is never 00 either,
+	// so a body starting with 00 0x cannot complete a start code. The unit must not end in 00 (it would merge with the next start code).
 	if len(b) > 0 && b[len(b)-1] == 0 {
 		b[len(b)-1] = 0x80
 	}
